@@ -1,6 +1,6 @@
 import S3V.Model.Exec
 import S3V.Model.Xfer
-import S3V.Model.Fs
+import S3V.Model.Fs2
 import S3V.Driver.Util
 namespace S3V.Driver
 
@@ -8,7 +8,7 @@ structure M2D where
   ex   : S3V.Exec.Exec := S3V.Exec.Exec.init 0 0
   xcfg : S3V.Xfer.Cfg := { bound := 0 }
   x    : S3V.Xfer.X := {}
-  fs   : S3V.Fs.Fs := {}
+  fs   : S3V.Fs2.Fs := {}
 
 def bool? (s : String) : Option Bool := if s = "1" then some true else if s = "0" then some false else none
 
@@ -46,20 +46,20 @@ def showStatus2 : S3V.Coord.Status → String
   | .notStarted => "not-started" | .queued => "queued" | .running => "running"
   | .success => "success" | .failed => "failed" | .cancelled => "cancelled"
 
-def parseFsLabel (toks : List String) : Option S3V.Fs.Label :=
+def parseFsLabel (toks : List String) : Option S3V.Fs2.Label :=
   match toks with
   | ["openTemp"] => some .openTemp
   | ["queueWrite"] => some .queueWrite
   | ["getsDone"] => some .getsDone
-  | ["write", b] => (bool? b).map .write
-  | ["skipWrite"] => some .skipWrite
+  | ["pickWrite", b] => (bool? b).map .pickWrite
+  | ["writeEnd", b] => (bool? b).map .writeEnd
   | ["fail"] => some .fail
+  | ["pickFinal", b] => (bool? b).map .pickFinal
   | ["rename", b] => (bool? b).map .rename
-  | ["skipRename"] => some .skipRename
   | ["cleanup"] => some .cleanup
   | _ => none
 
-def showContent : S3V.Fs.Content → String
+def showContent : S3V.Fs2.Content → String
   | .absentOrPrevious => "previous" | .complete => "complete" | .partial_ => "partial"
 
 def m2Step (d : M2D) (toks : List String) : M2D × String :=
@@ -93,10 +93,10 @@ def m2Step (d : M2D) (toks : List String) : M2D × String :=
       | some x' => ({ d with x := x' }, "ok")
       | none => (d, "not-enabled")
     | none => (d, "bad-op")
-  | ["fs", "new"] => ({ d with fs := {} }, "ok")
-  | ["fs", "state"] => (d, s!"final={showContent d.fs.final} temp={if d.fs.temp = .absent then "absent" else "present"}")
-  | "fs" :: rest => match parseFsLabel rest with
-    | some l => match S3V.Fs.step d.fs l with
+  | ["fs2", "new"] => ({ d with fs := {} }, "ok")
+  | ["fs2", "state"] => (d, s!"final={showContent d.fs.final} temp={if d.fs.temp = .absent then "absent" else "present"}")
+  | "fs2" :: rest => match parseFsLabel rest with
+    | some l => match S3V.Fs2.step d.fs l with
       | some f => ({ d with fs := f }, "ok")
       | none => (d, "not-enabled")
     | none => (d, "bad-op")
